@@ -512,6 +512,10 @@ pub fn judge_c01(cfg: &HybCfg, ops: &[HOp], trace: &HTrace) -> C01Judgement {
                         "disk-only-entry-with-held-handle".to_string()
                     } else if cfg.algo.is_lru() && tl.lru_pinned_at_close(key, a) {
                         "lru-pinned-entry-skipped-by-flush-on-close".to_string()
+                    } else if returned_version.map(|rv| cleared_then_restarted(ops, &tl, key, rv, a)).unwrap_or(false) {
+                        // known finding: clear() does not end the flushers' open blob; the next write rewrites that
+                        // blob's index including the entries from before the clear, and a restart recovers them
+                        "cleared-entry-back-after-restart".to_string()
                     } else if kind == "stale-version-returned"
                         && returned_version.map(|rv| older_version_written_after_newer(cfg, trace, gen_at(a), key, rv)).unwrap_or(false)
                     {
@@ -549,7 +553,14 @@ pub fn judge_c01(cfg: &HybCfg, ops: &[HOp], trace: &HTrace) -> C01Judgement {
             let key = *k as u64;
             if *mem && tl.removed_before(key, step) && tl.permitted_versions(key, step, step).is_empty() {
                 failures.push(Failure::new(
-                    if tl.in_held_disk_only_window(key, step) { "disk-only-entry-with-held-handle" } else { "memory-contains-removed-key" },
+                    if tl.in_held_disk_only_window(key, step) {
+                        "disk-only-entry-with-held-handle"
+                    } else if tl.version_info.iter().any(|(v, (k, _))| *k == key && cleared_then_restarted(ops, &tl, key, *v, step)) {
+                        // an earlier lookup loaded the resurrected entry into memory (same known finding)
+                        "cleared-entry-back-after-restart"
+                    } else {
+                        "memory-contains-removed-key"
+                    },
                     format!("step {step}: memory().contains({key}) is true although the key was removed and not inserted again"),
                 ));
             }
@@ -595,4 +606,29 @@ pub fn older_version_written_after_newer(cfg: &HybCfg, trace: &HTrace, generatio
         }
     }
     of_stale.iter().any(|a| of_newer.iter().any(|b| a.completed_clock.unwrap_or(u64::MAX) > b.issued_clock))
+}
+
+
+/// Structural condition of the known finding "cleared entry back after restart": the returned version was written
+/// before a clear() of the cache, that clear is the last thing that happened to the key before the lookup, and the
+/// cache was reopened between the clear and the lookup.
+pub fn cleared_then_restarted(ops: &[HOp], tl: &Timeline, key: u64, version: u64, a: u64) -> bool {
+    let Some(evs) = tl.writes.get(&key) else { return false };
+    let Some(w) = evs.iter().find(|w| !w.resurrect && w.version == Some(version)) else { return false };
+    // last clear before the lookup that follows the write of that version
+    let clear = ops
+        .iter()
+        .enumerate()
+        .map(|(i, o)| (i as u64 + 1, o))
+        .filter(|(s, o)| matches!(o, HOp::Clear) && *s > w.hi && *s < a)
+        .map(|(s, _)| s)
+        .max();
+    let Some(c) = clear else { return false };
+    let restarted = ops
+        .iter()
+        .enumerate()
+        .any(|(i, o)| matches!(o, HOp::Reopen | HOp::ReopenNoClose | HOp::CloseCrashReopen) && (i as u64 + 1) > c && (i as u64 + 1) < a);
+    // nothing definite happened to the key after the clear
+    let later = evs.iter().any(|o| !o.resurrect && o.lo > c && o.hi < a);
+    restarted && !later
 }
